@@ -427,7 +427,7 @@ PROPS.update({
         "floors": {"quick": {"evaluations": 50_000, "distinct_nontrivial": 20_000, "transitions_observed": 50_000_000,
                              "cost_measurements": 60, "cost_relations_checked": 36,
                              "failures_observed": 20_000_000, "calls_with_heavy_failure_traffic": 3000,
-                             "stream_iterators_measured": 1000, "family_a^k_b": 150, "family_fibonacci": 150,
+                             "stream_iterators_measured": 2000, "stream_rolls_observed": 5_000_000, "family_a^k_b": 150, "family_fibonacci": 150,
                              "family_nested_suffixes": 150},
                    "thorough": {"evaluations": 1_000_000}},
         "timeout": T_DEFAULT,
